@@ -152,6 +152,22 @@ def gen_list(t, flavour=None, min_lines=3, max_lines=40):
                 pool.append(pw)
         n = t.between(300, 2500)
         pws = [pool[min(t.draw(len(pool)), t.draw(len(pool)), t.draw(len(pool)))] for _ in range(n)]
+        shape = t.draw(4)
+        if shape == 2:
+            # flat: 700-1 250 distinct passwords, each once, no two with the same first two characters -- the opposite
+            # extreme of the skewed lists: no initial n-gram, no terminal and no structure stands out
+            import itertools
+            alpha = [c for c in "abcdefghijklmnopqrstuvwxyz0123456789" if representable(c, enc)]
+            starts = ["".join(p) for p in itertools.product(alpha, repeat=2)]
+            starts = t.shuffle(starts)[:t.between(700, 1250)]
+            pws = [s2 + "".join(alpha[t.draw(len(alpha))] for _ in range(t.between(3, 6))) for s2 in starts]
+        elif shape == 3:
+            # saturated: every one-, two- and three-digit string occurs, so those lists hold exactly 10, 100 and 1 000
+            # distinct items (round numbers are where batch sizes and thresholds sit)
+            sat = ["%d" % i for i in range(10)] + ["%02d" % i for i in range(100)] + ["%03d" % i for i in range(1000)]
+            pws = pws[:t.between(50, 400)] + t.shuffle(sat)
+            if t.chance(1, 2):
+                pws += [sat[t.draw(len(sat))] for _ in range(t.between(1, 300))]
     else:
         pws = [pool[t.draw(len(pool))] for _ in range(n)]
     if t.chance(1, 2):
